@@ -2,7 +2,7 @@
    The OCaml driver (ocaml/modelrun.ml) and the in-Coq cross-check both go through dispatch. *)
 From RcProxy Require Import Base.Bytes Base.Sx Base.Dec Gen.Generated Spec.KeySlot Model.Crc16
   Spec.RespGrammar Spec.SplitSpec Spec.CommandSpec
-  Spec.RouteSpec Model.RespBuf Model.Commands Model.ClientCodec Model.ClientFeed Model.ServerCodec Model.Route Model.AuthIp.
+  Spec.RouteSpec Model.RespBuf Model.Commands Model.ClientCodec Model.ClientFeed Model.ServerCodec Model.Route Model.AuthIp Model.Cluster.
 
 Definition e_hash (a : sx) : sx :=
   match a with SB k => sN (Hash k) | _ => bad end.
@@ -222,6 +222,150 @@ Definition o_authip (a : sx) : sx :=
               else viol "admitted-set-differs-from-last-whitelist-version" [SL (map sbool want)]
           end
       | _, _, _ => bad
+      end
+  | _ => bad
+  end.
+
+(* ---- topology refresh ----
+   input ( ((addr loading linkup err) ...)  ((addr slave) ...)  (events ...)  (probe slots ...) )
+   event (0 msg) = one probe reply through loopClusterNodes, (1) = one ticker round *)
+Definition sx_node (n : cnode) : sx :=
+  SL [SB (cn_name n); SB (cn_addr n); sbool (cn_slave n); SB (cn_masterid n);
+      SL (map (fun r => SL [SN (fst r); SN (snd r)]) (cn_slots n))].
+
+Fixpoint insert_node (x : cnode) (l : list cnode) : list cnode :=
+  match l with [] => [x] | y :: r => if Cluster.bytes_leb (cn_addr x) (cn_addr y) then x :: l else y :: insert_node x r end.
+Fixpoint insert_pool (x : bytes * bool) (l : list (bytes * bool)) : list (bytes * bool) :=
+  match l with [] => [x] | y :: r => if Cluster.bytes_leb (fst x) (fst y) then x :: l else y :: insert_pool x r end.
+
+Definition sx_cluster (st : cstate) (pools : list (bytes * bool)) (table : list (cnode * list cnode)) (probes : list Z) : sx :=
+  SL [ SL (map sx_node (fold_right insert_node [] (cs_servers st)));
+       SL (map (fun rs => SL (SB (cn_addr (fst rs)) :: map (fun n => SB (cn_addr n)) (snd rs))) (cs_sets st));
+       sbool (cs_changed st);
+       SL (map (fun p => SL [SB (fst p); sbool (snd p)]) (fold_right insert_pool [] pools));
+       SL (map (fun s => match table_lookup table s with
+                         | Some rs => SL [SN s; SB (cn_addr (fst rs)); SL (map (fun n => SB (cn_addr n)) (snd rs))]
+                         | None => SL [SN s]
+                         end) probes) ].
+
+Fixpoint run_cluster (info : info_oracle) (evs : list sx) (st : cstate) (pools : list (bytes * bool))
+                     (table : list (cnode * list cnode)) (probes : list Z) : list sx :=
+  match evs with
+  | [] => []
+  | SL [SN 0%Z; SB msg] :: rest =>
+      match loop_step st info msg with
+      | Some st' => sx_cluster st' pools table probes :: run_cluster info rest st' pools table probes
+      | None => [SL [SB (bs "refresh-goroutine-panics")]]
+      end
+  | SL [SN 1%Z] :: rest =>
+      if cs_changed st then
+        let pools' := tick_pools pools (cs_servers st) in
+        let st' := {| cs_servers := cs_servers st; cs_sets := cs_sets st; cs_last := cs_last st; cs_changed := false |} in
+        sx_cluster st' pools' (cs_sets st) probes :: run_cluster info rest st' pools' (cs_sets st) probes
+      else sx_cluster st pools table probes :: run_cluster info rest st pools table probes
+  | _ => [bad]
+  end.
+
+Definition get_info (l : list sx) : info_oracle :=
+  fun addr =>
+    match find (fun e => match e with SL (SB a :: _) => beqb a addr | _ => false end) l with
+    | Some (SL [_; SN loading; SN up; SN err]) =>
+        if negb (Z.eqb err 0) then None else Some (negb (Z.eqb loading 0), negb (Z.eqb up 0))
+    | _ => Some (false, true)
+    end.
+
+Definition e_cluster (a : sx) : sx :=
+  match a with
+  | SL [SL infos; SL pools0; SL evs; probes] =>
+      match map_opt (fun p => match p with SL [SB a; SN s] => Some (a, negb (Z.eqb s 0)) | _ => None end) pools0, get_zl probes with
+      | Some ps, Some pr => SL (run_cluster (get_info infos) evs cstate0 ps [] pr)
+      | _, _ => bad
+      end
+  | _ => bad
+  end.
+
+Definition e_cparse (a : sx) : sx :=
+  match a with
+  | SL [SL infos; known; SB text] =>
+      match get_bl known with
+      | Some kn => match parse_nodes kn (get_info infos) text with
+                   | Some nodes => SL [SN 1%Z; SL (map sx_node nodes)]
+                   | None => SL [SN 0%Z; SL []]
+                   end
+      | None => bad
+      end
+  | _ => bad
+  end.
+
+(* o_cluster: spec checks on the implementation's own dumps (no model involved):
+   the loop must keep reading; after every ticker round each probe slot's owner is a set of the dump
+   that claims the slot with the dump's replicas, an unowned slot is claimed by nobody, and the
+   pools are exactly the known servers *)
+Definition dump_parts (d : sx) := match d with SL [SL servers; SL sets; SN changed; SL pools; SL owners] => Some (servers, sets, changed, pools, owners) | _ => None end.
+
+Definition server_slots (servers : list sx) (addr : bytes) : list (Z * Z) :=
+  match find (fun n => match n with SL [_; SB a; _; _; _] => beqb a addr | _ => false end) servers with
+  | Some (SL [_; _; _; _; SL ranges]) =>
+      concat (map (fun r => match r with SL [SN a; SN b] => [(a, b)] | _ => [] end) ranges)
+  | _ => []
+  end.
+
+Definition owner_ok (servers sets : list sx) (o : sx) : bool :=
+  let claims (maddr : bytes) (slot : Z) := existsb (fun r => (fst r <=? slot)%Z && (slot <=? snd r)%Z) (server_slots servers maddr) in
+  match o with
+  | SL [SN slot] =>
+      negb (existsb (fun st => match st with SL (SB m :: _) => claims m slot | _ => false end) sets)
+  | SL [SN slot; SB m; SL sl] =>
+      claims m slot && existsb (fun st => match st with SL (SB m' :: sl') => beqb m m' && sx_eqb (SL sl') (SL sl) | _ => false end) sets
+  | _ => false
+  end.
+
+Fixpoint check_dumps (evs : list sx) (dumps : list sx) : sx :=
+  match evs, dumps with
+  | _, SL (SB tag :: _) :: _ => viol "topology-refresh-loop-stopped-or-crashed" [SB tag]
+  | ev :: evs', d :: dumps' =>
+      match dump_parts d with
+      | None => bad
+      | Some (servers, sets, changed, pools, owners) =>
+          match ev with
+          | SL [SN 1%Z] =>
+              if negb (forallb (owner_ok servers sets) owners) then viol "slot-owner-inconsistent-with-adopted-topology" [SL owners]
+              else if negb (Z.eqb changed 0) then viol "changed-flag-still-set-after-ticker" []
+              else
+                let saddrs := map (fun n => match n with SL [_; SB a; _; _; _] => a | _ => [] end) servers in
+                let paddrs := map (fun p => match p with SL [SB a; _] => a | _ => [] end) pools in
+                if (match servers with [] => true | _ => false end) then check_dumps evs' dumps'   (* nothing adopted yet: initial pools stay *)
+                else if negb (forallb (fun a => Cluster.memb a saddrs) paddrs && forallb (fun a => Cluster.memb a paddrs) saddrs)
+                     then viol "pools-differ-from-adopted-servers" []
+                else check_dumps evs' dumps'
+          | _ => check_dumps evs' dumps'
+          end
+      end
+  | [], [] => ok
+  | _, _ => viol "fewer-observations-than-events" []
+  end.
+
+(* at every ticker round the replica sets and slot owners must be those of the latest valid
+   description (computed by the specification functions parse_nodes / set_replicaset / table_lookup) *)
+Fixpoint compare_ticks (evs : list sx) (impl model : list sx) : sx :=
+  match evs, impl, model with
+  | SL [SN 1%Z] :: evs', SL [_; si; _; _; oi] :: impl', SL [_; sm; _; _; om] :: model' =>
+      if (sx_eqb si sm && sx_eqb oi om)%bool then compare_ticks evs' impl' model'
+      else viol "topology-after-ticker-differs-from-latest-valid-description" [sm; om]
+  | _ :: evs', _ :: impl', _ :: model' => compare_ticks evs' impl' model'
+  | _, _, _ => ok
+  end.
+
+Definition o_cluster (a : sx) : sx :=
+  match a with
+  | SL [SL [infos; pools; SL evs; probes]; SL dumps] =>
+      match check_dumps evs dumps with
+      | SN 1%Z =>
+          match e_cluster (SL [infos; pools; SL evs; probes]) with
+          | SL model => compare_ticks evs dumps model
+          | _ => bad
+          end
+      | v => v
       end
   | _ => bad
   end.
@@ -534,7 +678,10 @@ Definition entries : list (bytes * (sx -> sx)) :=
     (bs "onsopened", e_onsopened);
     (bs "o_route", o_route);
     (bs "authip", e_authip);
-    (bs "o_authip", o_authip) ].
+    (bs "o_authip", o_authip);
+    (bs "cluster", e_cluster);
+    (bs "cparse", e_cparse);
+    (bs "o_cluster", o_cluster) ].
 
 Definition dispatch (name : bytes) (a : sx) : sx :=
   match assoc_b name entries with
